@@ -4,6 +4,8 @@
 pub mod apps;
 pub mod engine;
 pub mod mon;
+#[cfg(not(miri))]
+pub mod nghttp2;
 pub mod report;
 pub mod rng;
 pub mod sim;
